@@ -79,6 +79,9 @@ pub fn tick_index_from_sqrt_price(sqrt_price_x64: &u128) -> i32 {
         .try_into()
         .unwrap();
 
+    #[cfg(feature = "verif")]
+    crate::verif_hooks::record_tick_estimate(tick_low, tick_high);
+
     if tick_low == tick_high {
         tick_low
     } else {
